@@ -112,4 +112,38 @@ def orderedOkL : List Entry → Bool
   | e :: es => orderedOk e && orderedOkL es
 end
 
+/-! ## the page directory under the project's encoding -/
+
+mutual
+/-- the page directory as the property statement reads it for a project whose `encoding` is `enc`:
+    *every* file, at every depth, is a file in that encoding (a file that is not decodable in it has
+    no title to show) -/
+def viewE (enc : Str) : RawEntry → Entry
+  | .file n w m => .file n (readMeta enc w m)
+  | .dir n cs => .dir n (viewL enc cs)
+def viewL (enc : Str) : List RawEntry → List Entry
+  | [] => []
+  | e :: es => viewE enc e :: viewL enc es
+end
+
+mutual
+/-- the directory with every file decoded correctly (what its author wrote) -/
+def plainE : RawEntry → Entry
+  | .file n _ m => .file n m
+  | .dir n cs => .dir n (plainL cs)
+def plainL : List RawEntry → List Entry
+  | [] => []
+  | e :: es => plainE e :: plainL es
+end
+
+mutual
+/-- every file is pure ASCII or written in `enc` -/
+def writtenIn (enc : Str) : RawEntry → Bool
+  | .file _ w _ => readable enc w
+  | .dir _ cs => writtenInL enc cs
+def writtenInL (enc : Str) : List RawEntry → Bool
+  | [] => true
+  | e :: es => writtenIn enc e && writtenInL enc es
+end
+
 end Ford.PT
